@@ -569,6 +569,10 @@ static int cmd_runfile(const Args &a) {
 }
 
 int main(int argc, char **argv) {
+#ifdef SIM_VBLAS
+    // the vendor BLAS must not bring its own thread pool: an uncontrolled scheduler inside a dependency
+    if (!getenv("OPENBLAS_NUM_THREADS")) { setenv("OPENBLAS_NUM_THREADS", "1", 1); setenv("OMP_NUM_THREADS", "1", 1); execv("/proc/self/exe", argv); }
+#endif
     Args a;
     if (argc < 2) { fprintf(stderr, "usage: simfact one|batch|replay ...\n"); return 2; }
     a.mode = argv[1];
